@@ -258,6 +258,23 @@ def check_scorer(ctx, pkg, name, width, inner, mode):
                 n_cast += 1
                 if e.data["dtype"] != "float" and not any(dtype_fact(c, vv) is True for c, vv in both_polarities(list(e.facts))):
                     early.setdefault(e.loc(), e)
+        # the spacing test is decided on SIGNED differences: for cuts of an unsigned integer dtype (which the dtype test
+        # admits) cuts[:, j+1] - cuts[:, j] wraps around to a huge positive number for a decreasing row, and the row is
+        # scored silently.  Accepted: the operand of np.diff went through a cast to a signed integer type; a cast of the
+        # cuts to a signed type precedes the spacing test; or the dtype test itself demands a signed integer.
+        from ..models import _signed_target
+
+        D2 = None
+        for p in reach[:1]:
+            signed_guard = any("signedinteger" in c.key for c, v in both_polarities(p.facts) if dtype_fact(c, v) is not None or "issubdtype" in c.key)
+            diffs = [e for e in p.events if e.kind == "diff" and isinstance(e.data["operand"], Num) and e.data["operand"].nf is not None and ckey in atoms_of(e.data["operand"].nf, deep=True) and e.func is not None and "check" in e.func.name]
+            sp_keys = {c.key for c, v in p.facts if _is_spacing_fact(c, ckey)}
+            casts = [e for e in p.events if e.kind == "cast" and isinstance(e.data["value"], Num) and e.data["value"].nf is not None and ckey in atoms_of(e.data["value"].nf) and _signed_target(e.data.get("target")) is True and not any(c.key in sp_keys for c, _ in e.facts)]
+            # differences taken after strictly increasing rows have been established (on signed differences) cannot wrap
+            unsigned_diff = [e for e in diffs if e.data["operand"].meta.get("signed") is not True and not any(c.key in sp_keys for c, _ in e.facts)]
+            ok_sd = signed_guard or (bool(casts) and not unsigned_diff)
+            where = (unsigned_diff[0].loc() if unsigned_diff else (diffs[0].loc() if diffs else loc))
+            ctx.check(ok_sd, "C13.c CHECK-COMPLETE", f"{name}|{mode}|signed-differences", where, "the spacing of the cuts is tested on signed differences (a cast to a signed integer type before the differences are taken, or a signed-integer dtype test): unsigned cuts cannot wrap around", found=("np.diff of the cuts as given (their dtype may be unsigned)" if unsigned_diff else ("no cast to a signed type before the spacing test" if not casts else "signed")), expected="np.diff(cuts.astype(np.int64, copy=False), axis=1) or np.issubdtype(cuts.dtype, np.signedinteger)")
         for l, e in early.items():
             ctx.violation("C13.c CHECK-COMPLETE", f"{name}|{mode}|cast-before-dtype-check", l, "the cuts are converted to an integer (or caller-independent) dtype before their own dtype has been tested: fractional cuts are truncated and scored silently", found=f"{e.data['how']} to {e.data['dtype'] or 'a computed dtype'}: {norm_src(e.node)[:80]}", expected="np.issubdtype(cuts.dtype, np.integer) established first")
         firedw = [p for p in paths if p.outcome == "raise" and any(wd(c) for c, v in both_polarities(p.facts)) and p.exc.func is not None and "check_cuts" in p.exc.func.name]
@@ -267,6 +284,25 @@ def check_scorer(ctx, pkg, name, width, inner, mode):
         exp = ctx.P.lookup_class_attr(cls, "expected_cut_entries")
         wv = exp[1].value if exp is not None and isinstance(exp[1], ast.Constant) else None
         ctx.check(wv == width, "C13.c CHECK-COMPLETE", f"{name}|expected-width", loc, f"{name} expects {width} cut entries", found=wv, nontrivial=False)
+
+
+def _is_spacing_fact(c, ckey):
+    """an any/all test of a DIFFERENCE of entries of the cuts array: a diff atom over the cuts, or two distinct cuts-derived
+    atoms (columns, slices) with opposite signs"""
+    if c.t[0] not in ("all", "any") or not isinstance(c.t[1], Cond) or c.t[1].t[0] != "cmp":
+        return False
+    nf = c.t[1].t[2]
+    from ..nf import as_linear
+
+    tops = atoms_of(nf, deep=False)
+    mention = [a for a in tops.values() if a.key == ckey or ckey in atoms_of(NF.atom(a), deep=True)]
+    if any(a.kind == "app" and a.args[0] == "diff" for a in mention):
+        return True
+    lin = as_linear(nf)
+    if lin is None:
+        return len(mention) >= 2
+    signs = {(k > 0) for a, k in lin[1].items() if any(a.key == m.key for m in mention)}
+    return len(mention) >= 2 and signs == {True, False}
 
 
 def _rowdiff(cuts_s, width):
